@@ -545,11 +545,20 @@ pub fn base_scenario(
     // checks with few runs per batch (C09 enumerates every call position of each scenario,
     // C17 every closure) draw the class more often so that a quick batch still contains some
     let giant_one_in = match property {
-        "C09" => 150,
+        "C09" => 100,
         "C17" => 200,
         _ => 400,
     };
-    let giant = if gh % giant_one_in == 0 { 1 + ((gh >> 16) % 3) as u8 } else { 0 };
+    let giant = if gh % giant_one_in == 0 {
+        if property == "C09" {
+            // every call position is re-executed: 65+ parameters cost the most there
+            [3u8, 3, 3, 3, 3, 3, 2, 2, 2, 1][((gh >> 16) % 10) as usize]
+        } else {
+            1 + ((gh >> 16) % 3) as u8
+        }
+    } else {
+        0
+    };
     let mut model = if giant == 1 {
         let mut m = gen_model(rng, kind, 40, 80);
         for _ in 0..400 {
